@@ -103,11 +103,25 @@ LightFaults(ts) ==
   \cup { [kind |-> "swap", at |-> i, toks |-> Swap(ts, i)] : i \in 1..(Len(ts) - 1) }
   \cup { [kind |-> "none", at |-> 0, toks |-> ts] }
 
+\* rule sets that are well spelled but whose reference graph is arbitrary: every way three rules can refer to each
+\* other through a bare reference, a sequence, a choice, a repetition or an optional head - left-recursive cycles of
+\* every length, entered from inside and from outside, among them.  The front-end has to answer with rules or
+\* with located errors here too.
+Nm(i) == <<114, 48 + i>>
+IdR(i) == Id(CASE i = 0 -> "r0" [] i = 1 -> "r1" [] OTHER -> "r2", Nm(i))
+X == S(<<120>>)
+RefBodies == UNION { { IdR(i), [t |-> "seq", a |-> IdR(i), b |-> X], [t |-> "alt", a |-> IdR(i), b |-> X],
+                       [t |-> "rep", a |-> IdR(i)], [t |-> "seq", a |-> [t |-> "opt", a |-> X], b |-> IdR(i)] } : i \in 0..2 } \cup {X}
+SemToks(f) == AllToks(<< [name |-> Nm(0), ty |-> "", tych |-> <<>>, e |-> f[0]],
+                         [name |-> Nm(1), ty |-> "", tych |-> <<>>, e |-> f[1]],
+                         [name |-> Nm(2), ty |-> "", tych |-> <<>>, e |-> f[2]] >>, Style)
+
 RECURSIVE H(_)
 H(ts) == IF ts = <<>> THEN 11 ELSE (31 * H(Tail(ts)) + Len(ts[1]) + (IF ts[1] = <<>> THEN 0 ELSE ts[1][1])) % 1009
 
 Cases == UNION { { f \in Faults(AllToks(RulesOf(e), Style)) : H(f.toks) % NShards = Shard } : e \in Exprs }
          \cup UNION { { f \in LightFaults(AllToks(RulesOf(e), Style)) : H(f.toks) % NShards = Shard } : e \in Nested }
+         \cup { x \in { [kind |-> "none", at |-> 0, toks |-> SemToks(f)] : f \in [0..2 -> RefBodies] } : H(x.toks) % NShards = Shard }
 
 Init == c \in Cases
 Next == UNCHANGED c
